@@ -46,6 +46,8 @@ def evaluate(node: ast.AST, lookup, bound: dict | None = None):
     def ev(n):
         if isinstance(n, ast.Name) and n.id in bound:
             return bound[n.id]
+        if isinstance(n, ast.Attribute) and isinstance(n.value, ast.Name) and n.value.id in bound and isinstance(bound[n.value.id], dict) and n.attr in bound[n.value.id]:
+            return bound[n.value.id][n.attr]   # a model object is a dict of its attributes
         try:
             v = lookup(n)
         except Unknown:
